@@ -307,9 +307,13 @@ func runC10(rc *RunCtx, redirects bool) {
 	case "askpass":
 		cl.OsEnv["GIT_ASKPASS"] = askpassScript()
 	}
-	os.Unsetenv("VERIF_CMDHELPER")
+	// the command helper (installed for the whole worker) is switched on by a
+	// flag file: git-lfs caches the process environment, so an env var set
+	// here would not reach `git credential`
+	flag := filepath.Join(os.Getenv("HOME"), "cmdhelper-on")
+	os.Remove(flag)
 	if cfg.Source == "command" {
-		os.Setenv("VERIF_CMDHELPER", "1")
+		os.WriteFile(flag, []byte("1"), 0644)
 	}
 	// the client was built before OsEnv/GitEnv edits: rebuild it so that the
 	// credential context sees them
@@ -527,6 +531,7 @@ func runC10(rc *RunCtx, redirects bool) {
 				continue
 			}
 			rc.Probe("secret-sent")
+			rc.Probe("secret-sent:" + tag.Source)
 			allowed := tag.Origins[origin] || (tag.HostOnly != "" && tag.HostOnly == hostName(r.Host))
 			if !allowed {
 				// http -> https upgrade on the same host name with default
